@@ -372,7 +372,7 @@ async fn actor_case(out: &mut Out, rng: &mut Rng, corpus: Option<&str>, cap: u64
     out.op("AMISSING".into(), format!("stored={} missing={} {}", stored, miss.len(), miss.join(" ")));
     // oracle (model-free): after a clean shutdown without store faults and without back-pressure
     // every update sent before the shutdown is in a listed segment
-    let bp_possible = cfg.backpressure_threshold_bytes < 73 * (sent.len() + 1);
+    let bp_possible = cfg.backpressure_threshold_bytes < 80 * (sent.len() + 1);
     if faults.is_empty() && !bp_possible && miss.len() != 1 {
         out.violation("C12:workers:update-lost-without-fault", "after a clean shutdown (no store fault, back-pressure threshold never reached, mailbox far below capacity) an update handed to the sink is in no listed segment",
             json!({"workload": text, "missing": miss}));
